@@ -160,6 +160,47 @@ def ckd_pub(node, i):
     return Node(None, Ki, I[32:], node.depth + 1, node.fingerprint(), i)
 
 
+def ckd_tweak(c, serK, k, i):
+    """The hash step of CKDpriv / CKDpub alone (no curve arithmetic): parent chain code c, serP of the parent's public key,
+    the parent's private key k (needed for hardened i only) and child number i  ->  (parse256(I_L), I_R).
+    CKDpriv: k_i = I_L + k (mod n);  CKDpub: K_i = point(I_L) + K;  c_i = I_R."""
+    if not 0 <= i < (1 << 32):
+        raise ValueError("child number out of range")
+    if i >= HARD:
+        if k is None:
+            raise Refused("hardened child of a public parent")
+        data = b"\0" + ser256(k) + ser32(i)
+    else:
+        data = serK + ser32(i)
+    I = _hmac512(c, data)
+    il = int.from_bytes(I[:32], "big")
+    if il >= N:
+        raise Invalid("I_L >= n")
+    return il, I[32:]
+
+
+class PointSum(object):
+    """Running sum of affine points (Jacobian accumulator): add(P) for each point, value() -> the affine sum (None = infinity).
+    Lets a long run of derived public keys be judged by ONE fixed-base multiplication per block:
+    sum(point(k_j)) = point(sum(k_j))."""
+
+    def __init__(self):
+        self.R = (1, 1, 0)
+
+    def add(self, P):
+        if P is None:
+            return
+        X, Y, Z = self.R
+        self.R = C._jadd_affine(X, Y, Z, P[0], P[1])
+
+    def value(self):
+        X, Y, Z = self.R
+        if Z == 0:
+            return None
+        zi = pow(Z, -1, C.p)
+        return (X * zi * zi % C.p, Y * zi * zi * zi % C.p)
+
+
 def derive(node, path):
     """path: iterable of child numbers (hardened ones already carry bit 31). Private parents use CKDpriv."""
     for i in path:
@@ -346,6 +387,30 @@ def selftest(rng=None):
         b = derive(m.neuter(), path)
         assert a.fields() == b.fields()
         assert a.K == C.mul(derive(m, path).k, C.G)
+        checked += 1
+    # the hash step alone and the running point sum agree with the full functions
+    for _ in range(4):
+        m = master(bytes(rng.randrange(256) for _ in range(32)))
+        acc, accp, ks, ils = PointSum(), PointSum(), 0, 0
+        for i in (0, 1, HARD - 1, HARD, HARD + 7, rng.randrange(1 << 32)):
+            il, ci = ckd_tweak(m.c, serP(m.K), m.k, i)
+            ch = ckd_priv(m, i)
+            assert ch.k == (il + m.k) % N and ch.c == ci
+            acc.add(ch.K)
+            ks += ch.k
+            if i < HARD:
+                assert ckd_tweak(m.c, serP(m.K), None, i) == (il, ci)
+                pc = ckd_pub(m.neuter(), i)
+                assert pc.K == ch.K and pc.c == ci
+                accp.add(pc.K)
+                accp.add(C.neg(m.K))
+                ils += il
+        assert acc.value() == point(ks) and accp.value() == point(ils)
+        acc.add(C.neg(acc.value()))
+        assert acc.value() is None
+        acc.add(m.K)
+        acc.add(m.K)
+        assert acc.value() == C.add(m.K, m.K)
         checked += 1
     # notation
     assert parse_path("0H/1/2p/3'") == [HARD, 1, HARD + 2, HARD + 3] and parse_path("") == []
